@@ -193,12 +193,12 @@ func (d *docModel) expectPath(c sim.Call) expectation {
 
 func hasNestedNil(v sim.Val) bool {
 	for _, kv := range v.M {
-		if kv.V.T == "nil" || kv.V.T == "nilptr" || hasNestedNil(kv.V) {
+		if kv.V.IsNullLike() || hasNestedNil(kv.V) {
 			return true
 		}
 	}
 	for _, e := range v.L {
-		if e.T == "nil" || e.T == "nilptr" || hasNestedNil(e) {
+		if e.IsNullLike() || hasNestedNil(e) {
 			return true
 		}
 	}
@@ -452,12 +452,7 @@ func genDocVal(rt *rapid.T, label string) sim.Val {
 	case 3:
 		return sim.Arr(sim.I(1), sim.Nil(), sim.S("x"))
 	case 4, 5, 6, 7:
-		v := genGoVal(rt, label, 3)
-		if v.T == "nilslice" {
-			// a nil slice is an empty array for a document, but null for encoding/json
-			return sim.Arr()
-		}
-		return v
+		return genGoVal(rt, label, 3)
 	default:
 		return genJSONVal(rt, label, 3, keyPoolHostile[:len(keyPoolHostile)-1])
 	}
